@@ -259,12 +259,8 @@ def oracle(case, obs, want=("C10", "C07")):
                 if fr != runs[:len(fr)]:
                     return "ackruns: op %d frame lists %s, tracked runs are %s" % (k, fr, runs[:len(fr) + 1])
                 fs = full_size(largest, f_delay, runs)
-                if len(fr) < len(runs) and cap > fs:
-                    return "ackcomplete: op %d capacity %d > full size %d but runs %s are missing" % (k, cap, fs, runs[len(fr):])
-                if len(fr) + 1 < len(runs) and cap == fs:
-                    return "ackcomplete: op %d capacity %d == full size %d but runs %s are missing" % (k, cap, fs, runs[len(fr):])
-                if len(fr) < len(runs) and cap == fs:
-                    return "ackcomplete-eq: op %d capacity %d == full size, last run %s dropped (`capacity > size`)" % (k, cap, runs[len(fr):])
+                if len(fr) < len(runs) and cap >= fs:
+                    return "ackcomplete: op %d capacity %d >= full size %d but runs %s are missing" % (k, cap, fs, runs[len(fr):])
         elif tag == T_NEWPKT:
             sdump = None
             pn, w, x, consumed = v
@@ -339,12 +335,6 @@ def oracle(case, obs, want=("C10", "C07")):
                                 del r[4:]
                         if out != exp_out:
                             return "fastretx: op %d fast_retransmit yielded %s, expected %s" % (k, out, exp_out)
-    return None
-
-
-def classify(case, msg, obs):
-    if msg.startswith("ackcomplete-eq:"):
-        return "F30"
     return None
 
 
